@@ -44,7 +44,7 @@ CHECKS.update({
         "a transcription of recovery.c's three passes (scan / revoke / replay, checksum v1/v2/v3, async commit, 64bit tags, wrap-around); ReplayExact holds with all deviation constants off, "
         "ReplayExactOrDev with the pinned tree's named deviations on. Conformance: seeded stratified abstract journals from the same universe are encoded into real images by an independent "
         "encoder, recovered three ways (e2fsck -E journal_only, e2fsck -fy, debugfs jr), read back by an independent decoder and validated by TLC as behaviours of Trace_Jbd2 (Recover must produce "
-        "exactly the observed block versions, journal emptied, needs_recovery cleared, front-ends agree); the repository's own j_* images are run the same way.",
+        "exactly the observed block versions, journal emptied, needs_recovery cleared, front-ends agree); the repository's own j_* images are run the same way. Jbd2.tla also states JsbAfter (s_start = 0 and the s_sequence every front end must leave) and Jbd2Gen.tla a second life of the log (restart at the announced sequence over the old ring, crash, second replay): Final of the second replay must not contain first-life blocks.",
    note="Trusted: TLC, gen/jbd2write.py (own encoder/decoder, own crc32c/crc32_be). Fast-commit replay is not modelled. Two known findings (named deviations DevReplayPastBadTag, DevScanAbort) "
         "are kernel-compatible behaviours that contradict the property text; they are listed in known_findings.txt. External journals only through the repository's images.",
    technique="TLA+ spec of jbd2 recovery model-checked with TLC + trace validation of real e2fsck/debugfs recoveries of spec-generated journals"),
@@ -52,7 +52,7 @@ CHECKS.update({
    text="TLC model-checks FileData.tla (property level: a file is a byte map with holes), FileBuf.tla (the one-block buffer of fileio.c refining it), ExtentMap.tla and IndMap.tla "
         "(extent-leaf list under set_bmap / punch; indirect-map punch arithmetic) on small constants. Histories over the same operation alphabet are concretised (cut points -> byte offsets from a "
         "boundary catalogue per filesystem profile: ext4 1k/4k, ext2, bigalloc, inline_data, nearly full) and executed by harness/filedrv.c through the public file API; every logged line "
-        "(read results, sizes, mapped blocks, leaf-extent list, ENOSPC outcomes, e2fsck -fn at close) is validated by TLC against Trace_FileData / Trace_ExtentMap / Trace_IndMap.",
+        "(read results, sizes, mapped blocks, leaf-extent list, ENOSPC outcomes, e2fsck -fn at close) is validated by TLC against Trace_FileData / Trace_ExtentMap / Trace_IndMap. SpaceAcct.tla adds space accounting (every unit free / owned once / leaked; i_blocks; on-disk bitmap with dirty flag) with protocols Grow / Prealloc / Release / Unmount / Mount; a spec-enumerated ENOSPC ladder (free count r x tree-growth situation x operation) and open..close session shapes run on the real library with an accounting record on every trace line.",
    note="Trusted: TLC, harness/filedrv.c, e2fsck -fn as the consistency oracle at close. Offsets come from a boundary catalogue, not all 2^64; histories are seeded samples inside the spec's constants. "
         "One known finding (fallocate leaks claimed blocks when the extent insert fails: its repair changes the expected output of tests/f_jnl_etb_alloc_fail).",
    technique="TLA+ refinement model checking (TLC) + trace validation of real-library file I/O histories"),
@@ -67,7 +67,7 @@ CHECKS.update({
    text="Tune.tla transcribes the request/effect relation of misc/tune2fs.c (update_feature_set, main: Refused / Effect / AllowedChange / rewrite obligations); TLC explores every sequence of <= 3 "
         "accepted requests from each starting profile and checks that no reachable feature set is one the library or e2fsck rejects and that every checksum-key change is followed by a rewrite covering "
         "every checksummed object class. Conformance: the request universe is enumerated by the spec (Emit_Tune), each request sequence runs the real tune2fs on populated base images and each step "
-        "is a trace line validated by TLC (Trace_Tune): abstract(after) = Effect(op, before), changed superblock fields inside AllowedChange, requested e2fsck succeeded, e2fsck -fn clean, tree equal.",
+        "is a trace line validated by TLC (Trace_Tune): abstract(after) = Effect(op, before), changed superblock fields inside AllowedChange, requested e2fsck succeeded, e2fsck -fn clean, tree equal. Tune.tla defines the starting-image catalogue every profile must contain (20 owners per quota type, extent tree of depth 2, directory extent tree of depth 1, full dx root and interior node) and RealUsage / QuotaFileOK; an independent quota-tree parser and the reader's per-class stale-checksum report are mandatory observations on the lines that need them.",
    note="Trusted: TLC, lib/sbparse.py, lib/absstate.py tree digest (via debugfs rdump + stat listing), e2fsck -fn. -I inode resize only 128->256; external journals and mounted-filesystem paths not exercised.",
    technique="TLA+ spec of tune2fs's feature-change contract model-checked with TLC + trace validation of real tune2fs runs enumerated by the spec"),
  "C13": dict(level="model_checking",
@@ -82,7 +82,7 @@ CHECKS.update({
    text="TLC model-checks XattrPlace.tla (transcription of ext_attr.c: xattr_array_update, ext2fs_xattrs_write, prep_ea_block_for_write, value inodes) against the property-level map of Xattr.tla "
         "(Refines, NoOverflow, SortedBlock, BlockIffEntries, EaRefs, PeerIntact, Charge...) exhaustively over set/remove sequences on inode sizes 128/256/1024, ea_inode on/off, inline-data files. "
         "Seeded histories are stepped through the real library (harness/xattrdrv.c) and debugfs ea_set/ea_rm/ea_get; after EVERY step the image is parsed by an independent parser "
-        "(gen/xattrparse.py) and the step validated by TLC against Trace_XattrPlace: exact placement, order, sizes, refcounts, free-block/inode and i_blocks accounting, get = model map.",
+        "(gen/xattrparse.py) and the step validated by TLC against Trace_XattrPlace: exact placement, order, sizes, refcounts, free-block/inode and i_blocks accounting, get = model map. XattrPlace.tla also models the inline-data subsystem as a second writer of the attribute area (PWrite, PTrunc, PISet, PIExpand, PPunch, PMkdirIn; DataIffInline).",
    note="Trusted: TLC, gen/xattrparse.py, e2fsck -fn at the end of every history. One known finding (DevCowNoEaRef: copy-on-write of a shared block does not take references on EA inodes). "
         "POSIX ACL conversion is exercised only through the system.posix_acl_* names the driver sets.",
    technique="TLA+ refinement model checking (TLC) + per-step trace validation of real-library xattr histories through an independent image parser"),
@@ -134,7 +134,7 @@ CHECKS.update({
         "replay plan of the bound, every crash point, every lost-write subset and the re-run on the crash image (Idempotent, IdempotentSubsets, NeverEmptyBeforeDurable, KeepsRequesting, FlagAfterEmpty), "
         "and must reject three wrong orderings. Conformance: journals from C03's generator and the repository's j_* images are recovered by the real front-ends under iotrace.so; the recorded "
         "pwrite/fsync stream is validated by TLC against Trace_JournalRun (invariants on every crash image of every prefix); crash images for crash points x lost-write subsets are rebuilt from the "
-        "recorded payloads (cross-checked against a process really killed at that write), recovery is re-run and TLC accepts the line only if the result equals RunAgainOf(image) = Final.",
+        "recorded payloads (cross-checked against a process really killed at that write), recovery is re-run and TLC accepts the line only if the result equals RunAgainOf(image) = Final. JournalRun.tla has two devices (filesystem and journal device, each with its own volatile cache and fsync); external-journal runs are recorded on both files and crash images range over the product of both pending sets.",
    note="Trusted: TLC, iotrace.so, the classification of writes against a shadow image. Block-exact comparison excludes s_wtime, s_kbytes_written, s_checksum and the journal superblock's s_sequence. "
         "A single pwrite is assumed atomic; internal journals only; fast-commit not modelled. Two known findings (DevSbPiecemeal, DevErrorLostOnCrash).",
    technique="TLA+ crash/recovery protocol model (TLC) + trace validation of recorded recovery write streams + fault enumeration of crash images on the real front-ends"),
@@ -143,7 +143,7 @@ CHECKS.update({
         "fields: pass 5 and checksum-only repairs) and TLC checks TreeUnchanged, ExitOK, ConsistentAfter, ModeScope from every consistent start, with summary-only corruptions and two consecutive runs; "
         "literal faulty behaviours must give counterexamples. Conformance: the universe is enumerated by the spec (modes x directory family x mapping shapes x summary corruption kinds); the real "
         "e2fsck runs on base images, family images and summary/checksum-only corruptions; the independent reader projects before and after; TLC evaluates Consistent, builds the observable tree and "
-        "evaluates the invariants of FsckPreserve on every line.",
+        "evaluates the invariants of FsckPreserve on every line. The mapping family includes written/unwritten extent states (InitStatePreserved) and the directory family casefold directories (strict / non-strict, names that are not valid UTF-8, case twins).",
    note="Trusted: TLC, the reader's tree (paths, types, sizes, modes, owners, nlink, symlink targets, content digests, xattr digests), gen/c05_summary.py. Two known findings (DevSbCsumRefuses; "
         "DevInodeUninitWipes if its repair is not committed).",
    technique="TLA+ model of e2fsck's rewriting modes (TLC) + trace validation of real e2fsck runs through an independent reader"),
@@ -152,7 +152,7 @@ CHECKS.update({
         "implementation-shaped PopModel (create_inode.c) and RdumpModel (dump.c); TLC explores every tree of a small configuration (InvPopulateExact, InvRdumpExact) and each Dev* constant must give a "
         "counterexample. Conformance: TLC simulates the builder (seeded) and emits trees; each is materialised on the host; per feature profile `mke2fs -d` and a `debugfs -w -f` script populate an "
         "image; the independent reader's listing (digests, mapped ranges), Consistent, e2fsck -fn, byte comparison of a second run and `debugfs rdump` / `dump -p` / `cat` re-read from the host are one "
-        "trace line per case decided by TLC (Trace_TreeGen, 22 named clauses).",
+        "trace line per case decided by TLC (Trace_TreeGen, 22 named clauses). Hard-link groups range over every non-directory type, inside and across directories and devices.",
    note="Trusted: TLC, the reader, gen/tree.py (host probes for SEEK_HOLE, user xattrs, tmpfs mounts; dependent clauses are skipped with a note when unavailable). debugfs front end is compared on the "
         "attributes its commands take. libarchive/tar input, > 60 nodes, > 2 GiB files, post-2038 times not covered. One known finding (debugfs does no quota accounting).",
    technique="TLA+ tree universe and populate/extract models (TLC) + trace validation of real mke2fs -d / debugfs / rdump runs on spec-generated trees"),
@@ -161,7 +161,7 @@ CHECKS.update({
         "L1/L2 tables with cache flush, refcounts) and of qcow2_write_raw_image; TLC checks DiscoveryOK, RawContract, WriterSane, MapExact, RefcountExact, ConvertEqualsRaw on small constants over every "
         "subset of marked/zero blocks. Conformance: 15 base profiles + generated filesystems crossing L2-table boundaries run through e2image -r, -Q, -r of the qcow2, -ra, -Qa, -r of that, under "
         "iotrace.so on the source; blocks are classified by the independent reader; per-class difference counts, e2fsck/dumpe2fs equality, the check's own parse of the qcow2 structures and the "
-        "source's system-call record are validated per line by TLC (Trace_E2image); a second trace spec replays the literal writer model with the real constants and must reproduce the real file layout.",
+        "source's system-call record are validated per line by TLC (Trace_E2image); a second trace spec replays the literal writer model with the real constants and must reproduce the real file layout. E2image.tla states every offset computation with its integer width; the size catalogue includes 4.25 GiB sparse filesystems with metadata around byte offsets 2^31 and 2^32.",
    note="Trusted: TLC, the reader's block classification, iotrace.so. Options -b/-o/-O/-c/-s/-I/-p, stdout/block-device output and the old 'normal' format are not covered; damaged sources are not covered. "
         "Backups and blocks the format declares uninitialised are not required in an image.",
    technique="TLA+ model of e2image's block discovery and qcow2 writer/reader (TLC) + trace validation of real e2image runs incl. exact file-layout replay"),
